@@ -21,6 +21,18 @@ CHECKS = {
              text="Every operator x ordered pair of ~75 boundary values over 10 kinds, every unary operator, and 2e4-3e5 random operand pairs were executed by the real compiler+VM and compared with the model; held on everything observed. Corners the statement leaves open are counted, not judged.",
              note="Trusted: opmodel.py (i64/u8 wrap-around, IEEE via Python floats, lexicographic string/char order). Byte vs integer ordering/equality, bitwise on bytes, integer*string and float division by zero are treated as unspecified.",
              design="6/C09"),
+ "C10": dict(level="exploration", technique="history checker: map operation histories with unique written values run on the real VM, replayed offline over an association list keyed by the implementation's own == (evaluated in the same run)",
+             text="All ordered key pairs from a 50-key domain (every key kind, 1/1.0, 0.0/-0.0, nested arrays) through literal/index/get/contains/insert/len plus 1.5e3-6e4 random histories were executed and replayed; held on everything observed apart from the recorded finding KF-C10-1.",
+             note="Trusted: the 15-line association-list replay; the equalities the statement names (1==1.0, 0.0==-0.0, element-wise arrays) are checked separately against the C09 model.",
+             design="6/C10"),
+ "C11": dict(level="exploration", technique="contract monitor: every pure builtin x arity x argument kinds executed on the real VM, result / runtime-error text / mutated argument compared with a contract table transcribed from the documentation; round-trip laws on random values",
+             text="23 builtins x arities 0..4 x a 110-value pool (all values for arity 1, sampled tuples beyond) plus the int/str, float/str, utf8, chars/join laws and sort/round on random values; held on everything observed apart from KF-C11-1.",
+             note="Trusted: the contract table (DESIGN.md appendix A); whatever the documentation does not determine is counted as unspecified, not judged.",
+             design="6/C11"),
+ "C12": dict(level="exploration", technique="reference-renderer monitor: grammar-derived format strings and argument lists through format/print/println/eprint/eprintln; returned string, captured stream bytes and returned length compared with a 40-line reference renderer; end-to-end runs of the real binary",
+             text="1.2e4-1.5e5 generated format calls (index, fill, alignment, width, radix, escapes, missing arguments) in-process plus 150-1500 end-to-end runs in both build profiles; held on everything observed.",
+             note="Trusted: the reference renderer; arguments restricted to kinds whose display is documented; fills that are also type letters or braces are excluded.",
+             design="6/C12"),
 }
 
 PENDING_REASON = "check not built yet in this session (design in DESIGN.md section 6); not claimed until its monitor runs silently on the unchanged tree"
